@@ -89,6 +89,11 @@ SPARE_CID_STATES = ["nospare", "onespare", "consumed"]
 # flight, so the hostile peer holds Handshake / 1-RTT keys), nothing else ever reached the server,
 # and its retransmission timers ran until datagrams_to_send() has nothing left it may send
 AMP_STATES = ["amp0", "amp2"]
+# application activity at the victim: streams in different lifecycle stages — a finished response
+# awaiting its ACK, a large response in flight that fills the congestion window, a stream it
+# reset, one it asked the peer to stop, a uni stream, streams the peer never used — and nothing of
+# what the victim sent has been acknowledged.  `sim.app_pns` = the packet numbers it sent.
+APP_STATES = ["appbusy", "appbusy-fin"]
 ZERO_RTT_STATES = ["zrtt1", "zrtt2"]     # server after 1 / 2 deliveries of a resumed handshake with early data
 STATES = (["fresh"] + [f"hs{k}" for k in range(HANDSHAKE_STEPS + 1)] +
           ["connected", "streams", "keyupdate", "closepending", "closing", "draining", "terminated"])
@@ -239,6 +244,37 @@ def build_state(role, state, seed, *, quic_logger=False, client_options=None, se
     _quiesce(sim)
     if state == "connected":
         return sim, victim, rec
+    if state.startswith("appbusy"):
+        vb, pb = (1, 0) if role == "server" else (0, 1)      # bidi stream ids opened by victim / peer
+        req = [pb, pb + 4]
+        for sid in req:                                        # the peer's requests reach the victim
+            sim.api(peer, "send_stream_data", sid, b"GET /%d" % sid, end_stream=True)
+        sim.transmit(peer)
+        for d in [x for x in sim.pending if x["dst"] is victim]:
+            sim.pending.remove(d)
+            sim.now += 0.001
+            sim.deliver(d)
+        sim.pending.clear()                                    # from now on the peer hears nothing
+        pn0 = victim.conn._packet_number
+        sim.api(victim, "send_stream_data", req[0], b"short answer", end_stream=True)
+        sim.transmit(victim)
+        sim.api(victim, "send_stream_data", vb, b"victim stream", end_stream=state.endswith("fin"))
+        sim.api(victim, "send_stream_data", vb + 2, b"victim uni", end_stream=False)
+        sim.transmit(victim)
+        sim.api(victim, "send_stream_data", req[1], b"L" * 300000, end_stream=state.endswith("fin"))
+        for _ in range(40):                                    # pacing timer by pacing timer, until the
+            sim.transmit(victim)                               # congestion window is full
+            sim.pending.clear()
+            t = sim.check_timer(victim)
+            if t is None or t - sim.now > 0.02 or \
+                    victim.conn._loss.congestion_window - victim.conn._loss.bytes_in_flight < victim.conn._max_datagram_size:
+                break
+            sim.fire_timer(victim)
+        sim.api(victim, "send_stream_data", vb + 4, b"queued behind the window", end_stream=False)
+        sim.transmit(victim)
+        sim.pending.clear()
+        sim.app_pns = list(range(pn0, victim.conn._packet_number))
+        return sim, victim, rec
     if state == "streams":
         c, s = sim.client, sim.server
         sim.api(c, "send_stream_data", 0, b"hello" * 40, end_stream=True)
@@ -378,6 +414,22 @@ def materialise(sim, victim, spec):
         if spec.get("mut"):
             data = _mutate(data, spec["mut"], sim.recorder.sent[victim.name])
         return data
+    if k == "ackctl":
+        # one 1-RTT packet: an ACK of chosen packets the victim sent during its application
+        # activity (indices into sim.app_pns; negative = from the end) + stream-control frames
+        pns = getattr(sim, "app_pns", None) or list(range(max(0, conn._packet_number - 12), conn._packet_number))
+        payload = b""
+        if spec.get("ack") is not None and pns:
+            i, j = spec["ack"]
+            sel = pns[i:j] if j is not None else pns[i:]
+            if sel:
+                payload += F.enc_ack([(sel[0], sel[-1])])
+        payload += bytes.fromhex(spec.get("hex", ""))
+        if not payload:
+            payload = b"\x01"
+        if not victim.peer.conn._cryptos:
+            return None
+        return inject.build(sim, victim.peer, payload, epoch="ONE_RTT")
     if k == "pnseq":
         # one packet of a window of packet numbers delivered out of order by a key-holding peer:
         # pn = base + off (the window is reserved on first use), content: ack-eliciting PING and/or
